@@ -731,7 +731,7 @@ def register(reg):
                 taken = [e.data["result"].t for e in tl[k + 1:] if e.name in ("call:" + RELEASE, "call:" + ASSIGN) and "result" in e.data]
                 a = ev.data["args"]
                 want = z3.Concat(*taken) if len(taken) > 1 else (taken[0] if taken else None)
-                out.append(("evicted_connections_are_closed", ("C06", "C04"), z3.simplify(c.eng.coerce(c.st, a[0], "seq:ref:" + CI).t == want) if want is not None and a else False))
+                out.append(("evicted_connections_are_closed", ("C06", "C04", "C09"), z3.simplify(c.eng.coerce(c.st, a[0], "seq:ref:" + CI).t == want) if want is not None and a else False))
                 out.append(("closing_happens_outside_the_pool_lock", ("C08", "C07"), not pool_lock_held(c, s)))
             if ev.name == "call:" + PR + ".wait_for_connection":
                 kwt = ev.data["kwargs"].get("timeout", ev.data["args"][0] if ev.data["args"] else NONE)
@@ -855,7 +855,7 @@ def register(reg):
             if ev.name == "call:" + CLOSECONNS:
                 passes = [e for e in c.events("call:" + ASSIGN) if "result" in e.data]
                 a = ev.data["args"]
-                out.append(("evicted_connections_are_closed", ("C06", "C04"), c.eng.coerce(c.st, a[0], "seq:ref:" + CI).t == passes[-1].data["result"].t if passes and a else False))
+                out.append(("evicted_connections_are_closed", ("C06", "C04", "C09"), c.eng.coerce(c.st, a[0], "seq:ref:" + CI).t == passes[-1].data["result"].t if passes and a else False))
                 out.append(("closing_happens_outside_the_pool_lock", ("C08",), not pool_lock_held(c, pool)))
             return out
 
